@@ -1628,8 +1628,8 @@ type fin =
 | FNil
 | FSet of nat list * nat
 
-type st = { s_ref : nat; s_fin : fin; s_open : bool; s_segs : nat list;
-            s_min : nat }
+type st = { s_ref : nat; s_ret : bool; s_fin : fin; s_open : bool;
+            s_segs : nat list; s_min : nat }
 
 type shared = { g_closed : bool; g_mu : tid option; g_trig : bool;
                 g_trig_closed : bool; g_await : nat option;
@@ -1708,7 +1708,8 @@ let rec upd l i x =
 (** val dst : st **)
 
 let dst =
-  { s_ref = O; s_fin = FUnset; s_open = false; s_segs = []; s_min = O }
+  { s_ref = O; s_ret = false; s_fin = FUnset; s_open = false; s_segs = [];
+    s_min = O }
 
 (** val dh : hnd **)
 
@@ -1793,14 +1794,20 @@ let set_meta g m s =
 (** val st_ref : st -> nat -> st **)
 
 let st_ref s r =
-  { s_ref = r; s_fin = s.s_fin; s_open = s.s_open; s_segs = s.s_segs; s_min =
-    s.s_min }
+  { s_ref = r; s_ret = s.s_ret; s_fin = s.s_fin; s_open = s.s_open; s_segs =
+    s.s_segs; s_min = s.s_min }
 
 (** val st_fin : st -> fin -> st **)
 
 let st_fin s f =
-  { s_ref = s.s_ref; s_fin = f; s_open = s.s_open; s_segs = s.s_segs; s_min =
-    s.s_min }
+  { s_ref = s.s_ref; s_ret = s.s_ret; s_fin = f; s_open = s.s_open; s_segs =
+    s.s_segs; s_min = s.s_min }
+
+(** val st_retire : st -> fin -> st **)
+
+let st_retire s f =
+  { s_ref = s.s_ref; s_ret = true; s_fin = f; s_open = s.s_open; s_segs =
+    s.s_segs; s_min = s.s_min }
 
 (** val upd_st : shared -> nat -> st -> shared **)
 
@@ -1858,7 +1865,12 @@ let rec seg_for g segs i acc =
 let find_log g s i =
   let f = first_index g s in
   if (&&) ((&&) (Nat.ltb O f) (Nat.leb f i)) (Nat.leb i (last_index g s))
-  then seg_for g s.s_segs i None
+  then (match seg_for g s.s_segs i None with
+        | Some h ->
+          if Nat.ltb (sub i (geth g h).h_base) (geth g h).h_cnt
+          then Some h
+          else None
+        | None -> None)
   else None
 
 (** val read_log : shared -> nat -> nat -> outcome **)
@@ -1901,12 +1913,14 @@ let new_hnd base =
 (** val mk_state : nat list -> nat -> st **)
 
 let mk_state segs mn =
-  { s_ref = (S O); s_fin = FUnset; s_open = true; s_segs = segs; s_min = mn }
+  { s_ref = (S O); s_ret = false; s_fin = FUnset; s_open = true; s_segs =
+    segs; s_min = mn }
 
 (** val empty_state : st **)
 
 let empty_state =
-  { s_ref = (S O); s_fin = FUnset; s_open = false; s_segs = []; s_min = O }
+  { s_ref = (S O); s_ret = false; s_fin = FUnset; s_open = false; s_segs =
+    []; s_min = O }
 
 (** val publish : shared -> st -> shared **)
 
@@ -2222,12 +2236,12 @@ let step_thread g me th =
     in
     Some (g', (setpc th (PM4 (y, (FSet (hs, g'.g_cur)), k))))
   | PM4 (y, f, k) ->
-    Some ((upd_st g y (st_fin (getst g y) f)),
+    Some ((upd_st g y (st_retire (getst g y) f)),
       (setpc th (PRel (y, (Ok O), k))))
   | PRel (x, r, k) ->
     let s = getst g x in
     let g' = upd_st g x (st_ref s (sub s.s_ref (S O))) in
-    if Nat.eqb s.s_ref (S O)
+    if (&&) (Nat.eqb s.s_ref (S O)) s.s_ret
     then Some (g', (setpc th (PLast (x, r, k))))
     else Some (g', (continue th r k))
   | PLast (x, r, k) ->
@@ -2266,7 +2280,7 @@ let step_thread g me th =
     let s = getst g x in
     if negb s.s_open
     then Some (g, (panic th))
-    else Some ((upd_st g x (st_fin s (FSet (s.s_segs, e)))),
+    else Some ((upd_st g x (st_retire s (FSet (s.s_segs, e)))),
            (setpc th (PC8 x)))
   | PC8 x ->
     Some ((set_meta g (S g.g_meta_closes) g.g_stable),
@@ -2312,9 +2326,10 @@ let step s t =
 
 let init_shared =
   { g_closed = false; g_mu = None; g_trig = false; g_trig_closed = false;
-    g_await = None; g_chans = []; g_cur = O; g_states = ({ s_ref = O; s_fin =
-    FUnset; s_open = true; s_segs = (O :: []); s_min = (S O) } :: []);
-    g_hnds = ((new_hnd (S O)) :: []); g_meta_closes = O; g_stable = O }
+    g_await = None; g_chans = []; g_cur = O; g_states = ({ s_ref = O; s_ret =
+    false; s_fin = FUnset; s_open = true; s_segs = (O :: []); s_min = (S
+    O) } :: []); g_hnds = ((new_hnd (S O)) :: []); g_meta_closes = O;
+    g_stable = O }
 
 (** val caller : op list -> thread **)
 
